@@ -122,8 +122,10 @@ def HashRecord(x: "ProvRecord") -> "int":
 @contract("prov.model.ProvRecord.attributes", props=["C04", "C05", "C08", "C09"])
 def ProvRecord_attributes(self: "ProvRecord") -> "Seq[Tup[Val,Val]]":
     pure()
-    reveal("canon_in")
+    reveal("canon_in", "NormalPair")
     comprehension_elt("Tup[Val,Val]")
+    # C08/C12: what a record in normal form lists can be given to a constructor / add_attributes again
+    ensures("normal", implies(NF(self), AllNormal(result)))
     ensures("names-are-qualified-names", forall(lambda i: implies(0 <= i and i < seq_len(result), is_qn(seq_nth(result, i)[0])), "int"))
     requires("attrs-wf", AttrsWF(self))
     ensures("canonical-content",
